@@ -55,6 +55,7 @@ type Scenario struct {
 	Nodes    []NodeSpec
 	Selfs    []int // indices into zoo.SelfKinds
 	Z        []int // scale-family indices
+	ZPar     []int // per scale-family node: index j of the Z type whose qualified slice ZQ holds it (-1: none)
 	RegPerm  []int // registration order: permutation of 0..len(all)-1
 	OrdMode  int   // 0 fixed ranks, 1 reshuffle on every enumeration
 	OrdSeed  uint64
@@ -73,7 +74,15 @@ func (s *Scenario) String() string {
 		fmt.Fprintf(&sb, " selfs=%v", s.Selfs)
 	}
 	if len(s.Z) > 0 {
-		fmt.Fprintf(&sb, " z=%d", len(s.Z))
+		h := fnv.New32a()
+		for i, z := range s.Z {
+			p := -1
+			if i < len(s.ZPar) {
+				p = s.ZPar[i]
+			}
+			fmt.Fprintf(h, "%d:%d,", z, p)
+		}
+		fmt.Fprintf(&sb, " z=%d#%08x", len(s.Z), h.Sum32())
 	}
 	return sb.String()
 }
@@ -230,8 +239,11 @@ func (s *Scenario) Instantiate() *Instance {
 		b := &zoo.Beh{ID: len(in.Comps), Alias: sk.Alias, Mask: "m0", Log: in.Log}
 		add(sk.New(b), b)
 	}
-	for _, z := range s.Z {
+	for k, z := range s.Z {
 		b := &zoo.Beh{ID: len(in.Comps), Mask: "m0", Log: in.Log}
+		if k < len(s.ZPar) && s.ZPar[k] >= 0 {
+			b.Mask = fmt.Sprintf("z%d", s.ZPar[k])
+		}
 		add(zoo.NewZ(z, b), b)
 	}
 	return in
